@@ -15,6 +15,7 @@ tables `Gen/NotifNames.lean`, which are REGENERATED from the defcon sources on e
   is `…_partial` and each recorded finding has a `…_violated` witness.
 -/
 import DefconModel.Lemmas.Setters
+import DefconModel.Lemmas.SettersArith
 import DefconModel.Gen.NotifNames
 
 namespace DefconModel.Props.C08
@@ -43,7 +44,8 @@ theorem payload_criterion_sound (e : Entry) (h : payloadOk e = true) : PayloadTr
   payloadTruth_of_ok e h
 
 /-- entries whose new value is computed by integer arithmetic (margins) or reassembled from six fields
-(image transformation): outside the syntactic criterion, proved one by one in section 4 -/
+(image transformation): outside the syntactic criterion, proved one by one in section 4
+(`margins_payload_truth`, `transformation_payload_truth`) -/
 def arithmetic : List String :=
   ["Glyph.leftMargin=", "Glyph.rightMargin=", "Glyph.bottomMargin=", "Glyph.topMargin=", "Image.transformation="]
 
@@ -102,9 +104,9 @@ instant at which that getter already returns its final value. -/
 theorem will_did_criterion_sound (e : Entry) (h : willDidOk e = true) : WillDid e := willDid_of_ok e h
 
 /-- entries with a will-notification that are outside the straight shape without being findings: the
-bottom-margin setter creates the vertical origin before its will (section 4), `ImageSet.__setitem__` posts its
-will conditionally after restoring and dropping a pending deletion (validated by the correspondence runs
-and the oracle only) -/
+bottom-margin setter creates the vertical origin before its will (proved in section 4,
+`bottomMargin_will_before_did`); `ImageSet.__setitem__` posts its will conditionally, after restoring and
+dropping a pending deletion — NOT proved: validated by the correspondence runs and the oracle only -/
 def outsideShape : List String := ["Glyph.bottomMargin=", "ImageSet.__setitem__"]
 
 /-- The criterion accepts every entry of the catalogue except the two above and exactly the call sites
@@ -186,6 +188,40 @@ theorem insertGlyph_will_twice :
       [("Layer.GlyphWillBeAdded", .will), ("Layer.GlyphWillBeAdded", .will), ("Layer.GlyphAdded", .did)] := by
   decide
 
+/-! ## 4 (placed here: it completes sections 1 and 2). The entries outside the syntactic criteria
+
+The four margin setters compute their new value by integer arithmetic on the glyph's bounds, the image
+transformation setter spreads its argument over six fields and reads them back: no syntactic criterion
+sees that `xMin + (value - xMin) = value`.  They are proved one by one, by running the interpreter
+symbolically, on stores typed the way the implementation's are (`MarginTyped`: integer bounds, width,
+height; vertical origin absent or an integer; an integer argument — or `NoBounds`: a glyph without
+outline, where every margin setter returns at once). -/
+
+/-- margins_payload_truth.  Every delivery of the four margin setters — their own will/did AND the nested
+`Glyph.WidthChanged`, `Glyph.HeightChanged`, `Glyph.VerticalOriginChanged` — carries as old value what the
+getter returned before the operation and as new value what it returns when the observer is called. -/
+theorem margins_payload_truth (e : Entry)
+    (he : e = glyphLeftMargin ∨ e = glyphRightMargin ∨ e = glyphTopMargin ∨ e = glyphBottomMargin)
+    (env : Env) (σ : Store) (h : MarginTyped env σ ∨ NoBounds σ) :
+    ∀ ev ∈ (runOp e env σ).evs, ev.Truthful env σ := by
+  rcases he with rfl | rfl | rfl | rfl
+  · exact leftMargin_truth env σ h
+  · exact rightMargin_truth env σ h
+  · exact topMargin_truth env σ h
+  · exact bottomMargin_truth env σ h
+
+/-- transformation_payload_truth.  `image.transformation = t` on an image with six integer fields: the one
+`Image.TransformationChanged` carries the old six-tuple and `t`, and the getter returns `t` when the
+observer is called (after the hold bracket around the six item assignments has been released). -/
+theorem transformation_payload_truth (env : Env) (σ : Store) (h : TransformationTyped env σ) :
+    ∀ ev ∈ (runOp imageTransformation env σ).evs, ev.Truthful env σ := transformation_truth env σ h
+
+/-- bottomMargin_will_before_did.  The bottom-margin setter creates the vertical origin BEFORE it posts its
+will (so the store has already changed) — yet `bottomMargin` still returns the old value when the will is
+delivered, and the final value when the did is delivered. -/
+theorem bottomMargin_will_before_did (env : Env) (σ : Store) (h : MarginTyped env σ ∨ NoBounds σ) :
+    WillDidRun env σ (runOp glyphBottomMargin env σ) := bottomMargin_willDid env σ h
+
 /-! ## 3. Sentence 3 — documented names are posted -/
 
 def documentedPostedB (t : Tables) (except : List (String × String)) : Bool :=
@@ -261,6 +297,17 @@ example : willDidOk topMarginBeforeFix = false ∧ willDidOk glyphTopMargin = tr
 example : lateWill topMarginBeforeFix { args := [.int 10] }
     [("xMin", .int 0), ("yMin", .int 0), ("xMax", .int 9), ("yMax", .int 50), ("_height", .int 100)] = true := by
   decide
+/-- the typing hypotheses of section 4 are met by ordinary stores -/
+example : MarginTyped { args := [.int 10] }
+    [("xMin", .int 0), ("yMin", .int 0), ("xMax", .int 9), ("yMax", .int 50), ("_width", .int 80), ("_height", .int 100)] :=
+  ⟨⟨0, by decide⟩, ⟨0, by decide⟩, ⟨9, by decide⟩, ⟨50, by decide⟩, ⟨80, by decide⟩, ⟨100, by decide⟩,
+   Or.inl (by decide), ⟨10, rfl⟩⟩
+/-- … and the left-margin setter then really delivers will, width change and did -/
+example : ((runOp glyphLeftMargin { args := [.int 10] }
+    [("xMin", .int 0), ("yMin", .int 0), ("xMax", .int 9), ("yMax", .int 50), ("_width", .int 80), ("_height", .int 100)]).evs.map
+      (fun ev => (ev.name, ev.old, ev.new))) =
+    [("Glyph.LeftMarginWillChange", some (.int 0), some (.int 10)), ("Glyph.WidthChanged", some (.int 80), some (.int 90)),
+     ("Glyph.LeftMarginDidChange", some (.int 0), some (.int 10))] := by decide
 /-- the regenerated tables: 26 classes; `Lib.ItemSet` is posted by `Lib` through the inherited
 `BaseDictObject.__setitem__` and the class attribute -/
 example : T.classes.length = 26 ∧ "Lib.ItemSet" ∈ T.postedNames "Lib" ∧ "Glyph.Changed" ∈ T.postedNames "Glyph" := by
